@@ -19,10 +19,10 @@ import (
 
 func main() {
 	if len(os.Args) >= 2 && os.Args[1] == "list" {
-		type ent struct{ ID, Level, Title, Explain string }
+		type ent struct{ ID, Level, Title, Explain, Technique string }
 		var out []ent
 		for _, ch := range core.Registry {
-			out = append(out, ent{ch.ID, ch.Level, ch.Title, ch.Explain})
+			out = append(out, ent{ch.ID, ch.Level, ch.Title, ch.Explain, ch.Technique})
 		}
 		sort.Slice(out, func(i, j int) bool { return out[i].ID < out[j].ID })
 		b, _ := json.MarshalIndent(out, "", " ")
